@@ -234,8 +234,8 @@ def run_case(case, ctx):
             if not compat(x, y):
                 continue
             op = rng.choice(['+', '-', '*', '/', '//', '%'])
-            if op in ('/', '//', '%') and np.any(np.asarray(y.val) == 0):
-                continue
+            if op in ('/', '//', '%') and (np.any(np.asarray(y.val) == 0) or np.any(np.asarray(y.get_val()) == 0)):
+                continue        # no division by zero (the value of a scaled divisor can be zero although its code is not)
             if x.n_word + y.n_word > 120:
                 continue
             sz = rng.choice(SIZINGS)
